@@ -197,7 +197,7 @@ Section filt2.
     stack s = gf3 sh w fl tr cl a t0 r (fstate2 i0 o0 dp0 mx0 tm0 zs0) :: anc -> fc s = fstate2 i o dp mx tm zs ->
     enabled s = true -> ridx s = r + 1 -> t0 <= t1 -> t1 < 18446744073709551616 -> 0 < t1 ->
     do_leave c s t1 =
-    if (((if tm =? NO_TIME then thr else tm) <? t1 - t0) && (negb hc || cl)) || w || tr then
+    if (((if tm =? NO_TIME then thr else tm) <=? t1 - t0) && (negb hc || cl)) || w || tr then
       {| fc := fstate2 (if fl then i - 1 else i)%Z o dp0 mx0 tm0 zs0; enabled := true; cached := cached s;
          stack := if w then anc else fst (flush_anc anc); ridx := r;
          out := out s ++ (if w then [] else snd (flush_anc anc) ++ [E_ a t0 r]) ++ [X_ a t1 r];
@@ -243,7 +243,7 @@ Section filt2.
                       depth := dp0; max_depth := mx0; ftime := tm0; fsize := zs0 |}
                    = fstate2 (if fl then (i - 1)%Z else i) o dp0 mx0 tm0 zs0) by (destruct fl; reflexivity).
     rewrite Hfc'.
-    destruct ((((if tm =? NO_TIME then thr else tm) <? t1 - t0) && (negb hc || cl)) || w || tr) eqn:Dec; [|reflexivity].
+    destruct ((((if tm =? NO_TIME then thr else tm) <=? t1 - t0) && (negb hc || cl)) || w || tr) eqn:Dec; [|reflexivity].
     unfold record_trace_data. rewrite Hfl, Hw.
     assert (Hend : (f_end (set_end fr t1) =? 0) = false) by (clear -Hpos; cbn [set_end f_end]; lia).
     destruct w.
@@ -403,7 +403,7 @@ Section filt2.
                                     (do_enter c s a t0, hooked c s a :: hk)) (Leave t1) = (s', hk)
                          /\ afterg s s' d
                               (let ks := flat_map (sel2 tg szf hc lm x' (d + 1)) kids in
-                               if (((if tm' =? NO_TIME then thr else tm') <? t1 - t0) && (negb hc || cl)) || tr || negb (is_nil ks)
+                               if (((if tm' =? NO_TIME then thr else tm') <=? t1 - t0) && (negb hc || cl)) || tr || negb (is_nil ks)
                                then E_ a t0 d :: ks ++ [X_ a t1 d] else [])).
     { intros fl tr cl i' dpn mx' tm' zs' x' Een Hhk HR' Hi' Hoz. subst o. rewrite Een, Hhk.
       set (s1 := {| fc := fstate2 i' 0 dpn mx' tm' zs'; enabled := true; cached := cached s;
@@ -428,7 +428,7 @@ Section filt2.
       rewrite Hi''.
       assert (Hcomm : forall A W T : bool, (A || W || T) = (A || T || W)) by (intros [] [] []; reflexivity).
       rewrite Hcomm.
-      destruct ((((if tm' =? NO_TIME then thr else tm') <? t1 - t0) && (negb hc || cl)) || tr || negb (is_nil Rk)) eqn:Dec.
+      destruct ((((if tm' =? NO_TIME then thr else tm') <=? t1 - t0) && (negb hc || cl)) || tr || negb (is_nil Rk)) eqn:Dec.
       { eexists. split; [reflexivity|].
         unfold afterg. cbn [fc enabled cached ridx stack out is_nil]. rewrite Hfc.
         repeat split; try assumption; try congruence.
@@ -479,7 +479,7 @@ Section filt2.
                          /\ afterg s s' d
                               (if sm then flat_map (sel2 tg szf hc lm x' d) kids
                                else let ks := flat_map (sel2 tg szf hc lm x' (d + 1)) kids in
-                                    if (((if tm' =? NO_TIME then thr else tm') <? t1 - t0) && (negb hc || cl)) || tr || negb (is_nil ks)
+                                    if (((if tm' =? NO_TIME then thr else tm') <=? t1 - t0) && (negb hc || cl)) || tr || negb (is_nil ks)
                                     then E_ a t0 d :: ks ++ [X_ a t1 d] else [])).
     { intros fl tr cl sm. destruct sm; [apply (ACCN t0)|apply ACC]. }
     cbn [sel2].
